@@ -43,6 +43,12 @@ impl Scheduler {
         Self::with_state(|state| f(state.execution))
     }
 
+    /// Returns `true` when called from a modeled thread, i.e. when the
+    /// execution state can be accessed.
+    pub(crate) fn is_in_model() -> bool {
+        STATE.is_set()
+    }
+
     /// Perform a context switch
     pub(crate) fn switch() {
         use std::future::Future;
